@@ -18,7 +18,7 @@ def digests(ids, seeds, tier='quick'):
     for cid in ids:
         spec = checks.get(cid)
         for s in seeds:
-            case = spec.make_case(s, tier)
+            case = spec.get_case(s, tier)
             res = spec.execute(case)
             out[f'{cid}/{s}'] = (res.digest, res.harness_error and res.harness_error[:80])
     return out
